@@ -12,6 +12,14 @@
 import json
 
 
+class F(float):
+    """a float that remembers how Rust printed it"""
+    def __new__(cls, text):
+        o = float.__new__(cls, text)
+        o.text = text
+        return o
+
+
 class P:
     def __init__(self, s):
         self.s = s
@@ -49,6 +57,9 @@ class P:
             return ("char", v)
         if c.isdigit() or c == "-":
             return self.number()
+        if c == "*":   # sylt_common::Type::Unknown prints as `*`
+            self.i += 1
+            return "*"
         return self.named()
 
     def string(self):
@@ -76,8 +87,9 @@ class P:
         if self.s[j] == "-":
             j += 1
         if self.s.startswith("inf", j):
+            t = self.s[self.i:j + 3]
             self.i = j + 3
-            return float(self.s[self.i - 3 - (j - self.i + 3 - 3):self.i]) if False else (float("-inf") if self.s[j - 1:j] == "-" else float("inf"))
+            return F(t)
         while j < len(self.s) and (self.s[j].isalnum() or self.s[j] in ".+-_") and not (self.s[j] in "+-" and self.s[j - 1] not in "eE"):
             j += 1
         t = self.s[self.i:j]
@@ -85,7 +97,7 @@ class P:
         try:
             return int(t)
         except ValueError:
-            return float(t)
+            return F(t)
 
     def seq(self, o, c):
         self.expect(o)
@@ -126,7 +138,7 @@ class P:
         assert name, "unexpected %r at %d" % (self.s[self.i:self.i + 30], self.i)
         self.i = j
         if name in ("NaN", "inf"):
-            return float(name.lower())
+            return F(name)
         c = self.peek()
         if c == "{":
             self.expect("{")
